@@ -171,7 +171,8 @@ TaskOf(s, n) == s.tasks[CHOOSE i \in DOMAIN s.tasks : s.tasks[i].name = n]
 Defined(s, n) == \E i \in DOMAIN s.tasks : s.tasks[i].name = n
 NoDup(q) == \A i, j \in DOMAIN q : i # j => q[i] # q[j]
 FirstIdx(q, x) == CHOOSE i \in DOMAIN q : q[i] = x /\ \A j \in DOMAIN q : q[j] = x => i <= j
-JsonRun(s, st, doc, clo) ==
+\* fresh: nothing can be up to date in this run (the first run of a new project, or --force): no task may be reported skipped
+JsonRun(s, st, doc, clo, fresh) ==
   LET names == [i \in DOMAIN doc |-> doc[i].task]
       ranNames == SelectSeq(names, LAMBDA n : ~doc[FirstIdx(names, n)].skipped /\ TaskOf(s, n).cmds # <<>>) IN
   /\ st.exit = 0
@@ -179,7 +180,8 @@ JsonRun(s, st, doc, clo) ==
   /\ \A i \in DOMAIN doc :
         LET t == TaskOf(s, doc[i].task) IN
         IF doc[i].skipped
-        THEN doc[i].results = <<>> /\ \A c \in DOMAIN t.cmds : t.cmds[c].marker \notin MarkersOf(st)
+        THEN /\ doc[i].results = <<>> /\ \A c \in DOMAIN t.cmds : t.cmds[c].marker \notin MarkersOf(st)
+             /\ t.hasfile /\ ~fresh          \* only a task with a file dependency, and only when there was an earlier run, can be skipped
         ELSE /\ Len(doc[i].results) = Len(t.cmds)
              /\ \A c \in DOMAIN t.cmds : /\ doc[i].results[c].cmd = t.cmds[c].text
                                          /\ doc[i].results[c].stdout = t.cmds[c].out
@@ -194,7 +196,7 @@ Conforms_C20(r) ==
   /\ \A i \in DOMAIN r.steps : r.steps[i].exit >= 0
   /\ \A i \in DOMAIN r.steps :
        LET st == r.steps[i]  v == r.views[i] IN
-       CASE v.mode = "json"  -> v.json_ok /\ JsonRun(s, st, v.doc, v.closure)         \* stdout is one JSON document ...
+       CASE v.mode = "json"  -> v.json_ok /\ JsonRun(s, st, v.doc, v.closure, v.fresh)  \* stdout is one JSON document ...
          [] v.mode = "quiet" -> st.exit = 0 /\ st.stdout = ""
          [] v.mode = "show"  -> /\ st.exit = 0
                                 /\ Len(v.rows) = Len(s.tasks)                      \* every defined task once
